@@ -18,6 +18,7 @@ package afm
 
 import (
 	"bufio"
+	"bytes"
 	"fmt"
 	"io"
 	"strconv"
@@ -41,6 +42,7 @@ func Read(fd io.Reader) (*Metrics, error) {
 	charMetrics := false
 	kernPairs := false
 	scanner := bufio.NewScanner(fd)
+	scanner.Split(scanLines)
 	for scanner.Scan() {
 		line := scanner.Text()
 		if strings.HasPrefix(line, "EndCharMetrics") {
@@ -206,4 +208,33 @@ func Read(fd io.Reader) (*Metrics, error) {
 	}
 
 	return res, nil
+}
+
+// scanLines is a split function for a [bufio.Scanner] which returns the
+// lines of the input, without the end-of-line markers.  Lines can end in
+// LF, CR+LF or CR (AFM files written on classic Mac OS systems use CR only).
+func scanLines(data []byte, atEOF bool) (advance int, token []byte, err error) {
+	if atEOF && len(data) == 0 {
+		return 0, nil, nil
+	}
+	if i := bytes.IndexAny(data, "\r\n"); i >= 0 {
+		if data[i] == '\n' {
+			return i + 1, data[:i], nil
+		}
+		if i+1 < len(data) {
+			if data[i+1] == '\n' {
+				return i + 2, data[:i], nil
+			}
+			return i + 1, data[:i], nil
+		}
+		if atEOF {
+			return i + 1, data[:i], nil
+		}
+		// need more data to see whether an LF follows the CR
+		return 0, nil, nil
+	}
+	if atEOF {
+		return len(data), data, nil
+	}
+	return 0, nil, nil
 }
